@@ -224,9 +224,21 @@ class FileProxy:
         try:
             self._fire("f.close")
         except BaseException:
-            # an injected failure of close(): the descriptor is still released
+            # an injected failure of close(): the descriptor is still released - and, as with a real failing close, what was
+            # still in the user-space buffer (the final flush) is LOST: the file keeps only what had reached the OS
+            try:
+                fd = self._f.fileno()
+                flushed = os.fstat(fd).st_size
+                now = os.readlink(f"/proc/self/fd/{fd}")
+            except Exception:
+                flushed = now = None
             try:
                 self._f.close()
+            except Exception:
+                pass
+            try:
+                if flushed is not None and now and _real["stat"](now).st_size > flushed:
+                    _real["truncate"](now, flushed)
             except Exception:
                 pass
             raise
